@@ -89,7 +89,15 @@ Monitors(r, prev) ==
                         ELSE {<<"error_linecol", r.res.o, r.res.l, r.res.c>>})
                   \cup (IF r.res.nexp >= 1 THEN {} ELSE {<<"no_expected_tokens">>})
       c13 == IF ok THEN C13Tree(r.bytes, r.tree) ELSE {}
-      c14 == IF ok /\ ~r.partial THEN C14Tree(r.bytes, r.tree, wsl) ELSE {}
+      \* C14, second sentence: the same tokens with other layout between them give the same tree
+      \* (prev is then the plain rendering of the same token string)
+      twin == "twin" \in DOMAIN r.meta /\ r.meta.twin = "layout" /\ prev.iid = r.iid /\ prev.id = r.id
+              /\ ~prev.partial /\ ~r.partial
+      c14t == IF ~twin \/ prev.res.k \notin {"ok", "err"} \/ r.res.k \notin {"ok", "err"} THEN {}
+              ELSE IF prev.res.k # r.res.k THEN {<<"layout_changes_result", prev.res.k, r.res.k>>}
+              ELSE IF ok /\ ShapeK(prev.tree) # ShapeK(r.tree) THEN {<<"layout_changes_tree">>}
+              ELSE {}
+      c14 == (IF ok /\ ~r.partial THEN C14Tree(r.bytes, r.tree, wsl) ELSE {}) \cup c14t
       c15 == IF r.res.k \in {"ok", "err"} THEN {} ELSE {<<r.res.k, r.res.msg>>}
   IN [c01 |-> c01, c02 |-> c02 \cup c02p, c12 |-> c12, c13 |-> c13, c14 |-> c14, c15 |-> c15,
       sent |-> sent, ok |-> ok, vl |-> vl, ntok |-> Len(w)]
